@@ -139,3 +139,36 @@ def fill(add):
         "python backend, parallel=False; identical exceptions count as identical results.",
         "DESIGN.md 1/C17",
     )
+
+    add(
+        "C13",
+        "exploration",
+        HIST + "; differential cached vs uncached",
+        "Generated histories of interface calls over a pool of near-identical contractions (one cache-key component changed at a time, equal-hash values of different type), caches cleared per history; every value compared with the independent reference and with the same call made with caching disabled; explicit paths must come back unchanged.",
+        "64-bit hash collisions of genuinely different keys cannot be found by search.",
+        "DESIGN.md 1/C13",
+    )
+    add(
+        "C14",
+        "exploration",
+        HIST + " with a counting hyper method observing whether a search ran",
+        "Generated histories over one cache (memory or scratch directory, fresh optimizer objects standing in for new processes) against a model keyed by an independent fingerprint: hits only for equal queries, stored answers returned unchanged, zero trials on repeats and under cache_only, monotone stored score under overwrite='improved'.",
+        "One live optimizer object per directory at a time (reload semantics); hash_method 'b' checked for validity only.",
+        "DESIGN.md 1/C14",
+    )
+    add(
+        "C15",
+        "fault_enumeration",
+        "fault-injection enumeration over generated scenarios (every crash point of the writing process from a logged dry run; fresh-process oracle)",
+        "For each generated scenario every crash point of the storing process is executed: death before each file-system mutation under the cache directory and inside each write after every byte count; a fresh process must then answer the query (searching again or serving exactly the old/new answer) and still serve earlier entries.",
+        "Process death only (no power loss); mutations through builtins.open/os.mkdir/os.replace/os.rename/os.unlink; forked reader processes stand in for later processes.",
+        "DESIGN.md 1/C15",
+    )
+    add(
+        "C16",
+        "exploration",
+        "property-based testing over call sequences plus systematic schedule enumeration (harness-owned sys.settrace scheduler, all 1-preemption schedules; <=2 in thorough)",
+        "Generated query sequences through every reusable optimizer kind, and real threads sharing one optimizer under a harness-owned scheduler that serialises them at line granularity in reusable.py/presets.py/hyper.py; every returned tree/path must belong to its own query.",
+        "Preemption bound 2; yield points = Python lines of the named files; max_time=None so schedules do not depend on the clock.",
+        "DESIGN.md 1/C16",
+    )
